@@ -27,36 +27,37 @@ def supportsSf (c : Chip) (sf : Int) : Bool :=
   | .sx1272 | .sx1276 => decide (6 ≤ sf ∧ sf ≤ 12)
   | _ => decide (5 ≤ sf ∧ sf ≤ 12)
 
-/-- Bandwidths in Hz: SX1272 has 125/250/500 kHz only; LR11xx lacks 7.81 kHz; SX1276 and SX126x
-have all ten. -/
-def supportsBw (c : Chip) (hz : Int) : Bool :=
-  let ten := hz = 7810 ∨ hz = 10420 ∨ hz = 15630 ∨ hz = 20830 ∨ hz = 31250 ∨ hz = 41670 ∨
-             hz = 62500 ∨ hz = 125000 ∨ hz = 250000 ∨ hz = 500000
+open Spec.Airtime (Bw)
+
+/-- Bandwidth settings: SX1272 has 125/250/500 kHz only; LR11xx lacks 7.81 kHz; SX1276 and SX126x
+have all ten.  (Keyed by the setting, not by a figure in hertz: see `Spec.Airtime.Bw`.) -/
+def supportsBw (c : Chip) (b : Bw) : Bool :=
   match c with
-  | .sx1272 => decide (hz = 125000 ∨ hz = 250000 ∨ hz = 500000)
-  | .lr1110 => decide (ten ∧ hz ≠ 7810)
-  | _ => decide ten
+  | .sx1272 => b == .k125 || b == .k250 || b == .k500
+  | .lr1110 => b != .k7
+  | _ => true
 
 /-- 250 kHz and 500 kHz are not offered in the lowest band (SX1276 DS table 7: "not supported in
 band 3", 137–175 MHz).  There is no band between 175 and 410 MHz on any of the chips, so the
 boundary is placed at 400 MHz. -/
-def supportsAt (hz rf : Int) : Bool := !(decide (hz = 250000 ∨ hz = 500000) && decide (rf < 400000000))
+def supportsAt (b : Bw) (rf : Int) : Bool := !((b == .k250 || b == .k500) && decide (rf < 400000000))
 
-def supports (c : Chip) (sf hz rf : Int) : Bool := supportsSf c sf && supportsBw c hz && supportsAt hz rf
+def supports (c : Chip) (sf : Int) (b : Bw) (rf : Int) : Bool := supportsSf c sf && supportsBw c b && supportsAt b rf
 
 /-- The datasheets' rule (SX1276 DS §4.1.1.6, SX1261/2 DS §6.1.1.4): LowDataRateOptimize is
-mandated when the symbol time reaches 16.38 ms. Re-exported from `Spec.Airtime`. -/
-abbrev ldro (sf hz : Int) : Bool := Spec.Airtime.ldro sf hz
+mandated when the symbol time reaches 16.38 ms — the symbol time of the bandwidth the chip
+realises. Re-exported from `Spec.Airtime`. -/
+abbrev ldro (sf : Int) (b : Bw) : Bool := Spec.Airtime.ldroPhys sf b
 
 /-- `ral_compute_lora_ldro` of SWL2001 (`ral_defs.h`), transcribed literally: a table per bandwidth. -/
-def ralLdro (sf hz : Int) : Bool :=
-  if hz = 500000 then false
-  else if hz = 250000 then decide (sf = 12)
-  else if hz = 125000 then decide (sf = 12 ∨ sf = 11)
-  else if hz = 62500 then decide (sf = 12 ∨ sf = 11 ∨ sf = 10)
-  else if hz = 41670 then decide (sf = 12 ∨ sf = 11 ∨ sf = 10 ∨ sf = 9)
-  else if hz = 31250 ∨ hz = 20830 ∨ hz = 15630 ∨ hz = 10420 ∨ hz = 7810 then true
-  else false
+def ralLdro (sf : Int) (b : Bw) : Bool :=
+  match b with
+  | .k500 => false
+  | .k250 => decide (sf = 12)
+  | .k125 => decide (sf = 12 ∨ sf = 11)
+  | .k62 => decide (sf = 12 ∨ sf = 11 ∨ sf = 10)
+  | .k41 => decide (sf = 12 ∨ sf = 11 ∨ sf = 10 ∨ sf = 9)
+  | .k31 | .k20 | .k15 | .k10 | .k7 => true
 
 /-- Where the chip finds the LDRO flag in what the driver programs.
 * SX126x `SetModulationParams` (0x8B) parameter 4, LR11xx `SetModulationParam` parameter 4: the byte itself;
